@@ -33,6 +33,16 @@ Theorem C20_never_stale : forall cfg evs st os k op now delay u st' r,
 Proof. exact never_stale. Qed.
 Print Assumptions C20_never_stale.
 
+Theorem C20_never_stale_unconditional : forall cfg evs st os k op now delay u st' r,
+  cfg_ok cfg ->
+  run cfg state_init evs = Ok (st, os) ->
+  step cfg st (EQuery k op now delay u) = Ok (st', OServed r) ->
+  exists k0 t0 u0,
+    logged evs os (k0, t0, u0) /\ same_question k0 k /\ derives u0 r /\
+    fresh_by_class cfg (now - t0) u0 r.
+Proof. exact never_stale_unconditional. Qed.
+Print Assumptions C20_never_stale_unconditional.
+
 Theorem C20_never_stale_refuted : strip_failure_is_miss = false ->
   validity config_default witness_stale_bad = Ok 60 /\
   exists st os st',
